@@ -18,6 +18,8 @@ from pyvc.sym import And, Implies, Ite, Not, Or, SReal, is_sym, smax, smin
 from .spec import IDENT, det, map_pt, map_vec, mat_mul, rotate_m, scale_m, translate_m
 
 P = "C11"
+# the algebra every placement (C02), gradient rewrite (C06) and reuse search (C20) stands on is re-checked with those properties too
+PA = ("C11", "C02", "C06", "C20")
 FN = "svg_transform.Affine2D."
 
 
@@ -29,7 +31,7 @@ def pt(H, prefix):
     return (H.real(prefix + "x"), H.real(prefix + "y"))
 
 
-@obligation(P, "affine.matmul", functions=[FN + "__matmul__", FN + "map_point", FN + "map_vector", FN + "matrix", FN + "identity"])
+@obligation(PA, "affine.matmul", functions=[FN + "__matmul__", FN + "map_point", FN + "map_vector", FN + "matrix", FN + "identity"])
 def matmul(H):
     """(A@B) is the SVG matrix product; mapping by A@B is mapping by B then A; @ is associative; identity is neutral."""
     A, B, C = aff(H, "A"), aff(H, "B"), aff(H, "C")
@@ -52,7 +54,7 @@ def matmul(H):
     H.prove(e is None and other is NotImplemented, "matmul.rejects_non_affine")
 
 
-@obligation(P, "affine.primitives", functions=[FN + "translate", FN + "scale", FN + "rotate", FN + "skewx", FN + "skewy", FN + "skew", FN + "gettranslate", FN + "getscale"])
+@obligation(PA, "affine.primitives", functions=[FN + "translate", FN + "scale", FN + "rotate", FN + "skewx", FN + "skewy", FN + "skew", FN + "gettranslate", FN + "getscale"])
 def primitives(H):
     """translate/scale/rotate/skewX/skewY post-multiply by the SVG 7.6 matrices, optional arguments defaulted per spec."""
     A = aff(H, "A")
@@ -79,7 +81,7 @@ def primitives(H):
     H.prove(H.close(tuple(H.call(Affine2D.getscale, A)), (A[0], A[3])), "getscale.def")
 
 
-@obligation(P, "affine.inverse", functions=[FN + "inverse", FN + "determinant", FN + "is_degenerate", FN + "degenerate"])
+@obligation(PA, "affine.inverse", functions=[FN + "inverse", FN + "determinant", FN + "is_degenerate", FN + "degenerate"])
 def inverse(H):
     """inverse undoes every non-degenerate transform (both sides); degenerate input gives the degenerate matrix; no exception."""
     A = aff(H, "A")
@@ -164,7 +166,7 @@ def rect_to_rect_invalid(H):
     H.prove(isinstance(e, ValueError), "rect_to_rect.invalid_is_ValueError")
 
 
-@obligation(P, "affine.decompose", functions=[FN + "decompose_translation", FN + "decompose_scale", FN + "almost_equals", FN + "compose_ltr", "geometric_types.almost_equal"])
+@obligation(PA, "affine.decompose", functions=[FN + "decompose_translation", FN + "decompose_scale", FN + "almost_equals", FN + "compose_ltr", "geometric_types.almost_equal"])
 def decompose(H):
     """decompose_translation / decompose_scale recompose to the original transform, or raise."""
     which = H.case("which", ("translation", "scale"))
@@ -216,14 +218,14 @@ def _compose_small(H, n):
     H.prove(H.close(tuple(H.call(Affine2D.map_point, R, p)), q), f"compose_ltr.first_listed_applies_first.n{n}")
 
 
-@obligation(P, "affine.compose_ltr.small", functions=[FN + "compose_ltr"])
+@obligation(PA, "affine.compose_ltr.small", functions=[FN + "compose_ltr"])
 def compose_small(H):
     """compose_ltr maps a point through the first transform first - exact unrolling for lengths 0..3 (the general length is affine.compose_ltr.fold)."""
     n = H.case("n", (0, 1, 2, 3))
     _compose_small(H, n)
 
 
-@obligation(P, "affine.compose_ltr.fold", functions=[FN + "compose_ltr"])
+@obligation(PA, "affine.compose_ltr.fold", functions=[FN + "compose_ltr"])
 def compose_fold(H):
     """compose_ltr over a sequence of ANY length maps a point through the first listed transform first.
 
